@@ -53,6 +53,12 @@ func c02Plan(tier string, seed uint64) (jobs []rt.Job) {
 			s := rng.Seed48()
 			add(XCfg{H: h, HF: 0, Seed: rt.Hex(s[:]), Seam: true}, 6, 30)
 		}
+		// the top byte of the index: only a key of height >= 26 has indices >= 2^24. One fixed history on an
+		// h=26 seam key that crosses 2^24 by signing and by jumping (about 2^24 traversal rounds; no exhaustion).
+		s := rng.Seed48()
+		add(XCfg{H: 26, HF: 0, Seed: rt.Hex(s[:]), Seam: true}, 1, 90)
+		jobs[len(jobs)-1].Args["tall_index"] = true
+		jobs[len(jobs)-1].Args["watchdog"] = 14400
 	}
 	return
 }
@@ -278,6 +284,12 @@ func c02Run(j *rt.Job, seed uint64, r *rt.Rec) {
 				budget = 40
 			}
 			ops := c02Gen(c, rng, budget)
+			if j.Bool("tall_index") {
+				const t = uint32(1) << 24
+				m := func() XOp { return XOp{Op: "sign", Msg: rt.Hex(rng.Bytes(6))} }
+				ops = []XOp{{Op: "set", Arg: t - 2}, m(), m(), m(), {Op: "set", Arg: t - 1}, {Op: "set", Arg: 3},
+					{Op: "set", Arg: t + 1<<16 + 7}, m(), {Op: "set", Arg: 1<<32 - 1}, {Op: "set", Arg: 1 << 26}, {Op: "set", Arg: 1 << 16}, m()}
+			}
 			log := c02Exec(c, ops)
 			r.Count("histories", 1)
 			at, why := c02Check(c.H, log, id0)
